@@ -143,6 +143,25 @@ class Convert(Suite):
             d = doc()
             text, toks = render(rng, d)
             out.append({"class": "valid", "text": text, "rows": _ser(expected_rows(d)), "via": rng.choice(["stream", "stream", "file"])})
+        # structurally identical sub-branches at different places of the document (the same coordinates, the same sub-tree below):
+        # every point is a node of its own, whatever other points look like
+        import copy as _copy
+        for _ in range(40 if big else 10):
+            d = doc()
+            def twin(b, depth=0):
+                pts, split = b
+                if split:
+                    split = [twin(a, depth + 1) for a in split]
+                    real = [a for a in split if a[0]]
+                    if real and rng.random() < 0.7:
+                        split.insert(rng.randrange(len(split) + 1), _copy.deepcopy(rng.choice(real)))
+                elif pts and depth < 3 and rng.random() < 0.5:
+                    a = ([[rng.choice(NUMS) for _ in range(4)] for _ in range(rng.randint(1, 2))], None)
+                    split = [a, _copy.deepcopy(a)] + ([_copy.deepcopy(a)] if rng.random() < 0.3 else [])
+                return (pts, split)
+            d = (d[0], twin(d[1]), None)
+            text, _ = render(rng, d, layout=False)
+            out.append({"class": "twins", "text": text, "rows": _ser(expected_rows(d)), "via": "stream"})
         # deep nesting and long branches
         for depth in ([10, 40] if big else [12]):
             b = ([["9", "9", "9", "1"]], None)
@@ -187,7 +206,7 @@ class Convert(Suite):
             if not idx:
                 continue
             i = rng.choice(idx)
-            kind = rng.choice(["three", "five", "literal", "badfloat", "nobracket", "nobracket"])
+            kind = rng.choice(["three", "five", "literal", "literal-first", "literal-first", "badfloat", "nobracket", "nobracket"])
             t2 = list(toks)
             if kind == "three":
                 del t2[i + 4]
@@ -199,6 +218,8 @@ class Convert(Suite):
                 del t2[i]                         # the point lost its opening bracket; the document gains a stray ")" at the end
             elif kind == "literal":
                 t2[i + rng.randint(1, 4)] = rng.choice(["abc", "x1", "NaN"])
+            elif kind == "literal-first":
+                t2[i + 1] = rng.choice(["abc", "x", "l0", "Dot", "Cross", "#REF!", "NaN"])      # the first field of a point is a word
             else:
                 t2[i + rng.randint(1, 4)] = rng.choice(["1e", "1..2", "12abc", "0x10"])
             out.append({"class": "badpoint/" + kind, "text": " ".join(t2), "rows": None, "via": "stream"})
